@@ -72,12 +72,16 @@ T = {
 }
 
 
+# properties whose check is finished and reviewed (a module file alone is not enough)
+READY = ["C08"]
+
+
 def main():
     checks = []
     na = []
     for pid in sorted(T):
         cat, tech, text, note, ref = T[pid]
-        if os.path.exists(os.path.join(HERE, "vp", "props", pid.lower() + ".py")):
+        if pid in READY and os.path.exists(os.path.join(HERE, "vp", "props", pid.lower() + ".py")):
             checks.append({
                 "property_id": pid,
                 "quick_cmd": "./check %s --tier quick" % pid,
